@@ -132,21 +132,33 @@ def gen_program(seed, k, tier):
     ngroups = int(rng.integers(3, 7))
     groups = []
     texts = []
+    made = []
     for gi in range(ngroups):
         eqs = []
         for ei in range(int(rng.integers(1, 3))):
-            cls, text, tr = eqgen.make_class(rng, '%d_%d_%d_%d' % (
-                seed, k, gi, ei), transcendental)
+            if made and rng.random() < 0.3:
+                # the same equation class once more, with its own attribute
+                # values (an int here, a float there, as users write them)
+                cls, text, tr = made[int(rng.integers(len(made)))]
+                reused = True
+            else:
+                cls, text, tr = eqgen.make_class(rng, '%d_%d_%d_%d' % (
+                    seed, k, gi, ei), transcendental)
+                made.append((cls, text, tr))
+                reused = False
             dest = str(rng.choice(names))
             nsrc = int(rng.integers(1, len(names) + 1))
             srcs = [str(s) for s in rng.choice(names, size=nsrc,
                                                replace=False)]
             needs_src = any(hasattr(cls, h) for h in ('loop', 'loop_all',
                                                       'initialize_pair'))
+            fa = [0.5, -0.25, 1.5, 2, 1][int(rng.integers(5))]
+            # (fb is re-assigned a float by some reduce(): always a float)
+            fb = [1.25, 0.75][int(rng.integers(2))]
             eqs.append(cls(dest=dest, sources=srcs if needs_src else None,
-                           fa=float(rng.choice([0.5, -0.25, 1.5])),
-                           fb=float(rng.choice([1.25, 0.75]))))
-            texts.append(text)
+                           fa=fa, fb=fb))
+            if not reused:
+                texts.append(text)
         kw = {}
         if rng.random() < 0.25:
             # swept a documented number of times (the default converged()
